@@ -197,7 +197,9 @@ mod c06 {
     }
 
     /// One call of `next_for_path` from an arbitrary cursor.
-    fn step<const O: u8>() {
+    /// `SHAPE` splits the cursor space into four harnesses: 0 = fresh cursor (no anchor), 1 / 2 = anchored at the
+    /// first / second endpoint of the node, 3 = anchored at an endpoint that is no longer in the node.
+    fn step<const O: u8, const SHAPE: u8>() {
         let matter = MATTER;
         let accessor = Accessor::new(kani::any(), kani::any(), AccessorSubjects::new(kani::any()), Some(AuthMode::Case), &matter);
         let timed: bool = kani::any();
@@ -271,6 +273,12 @@ mod c06 {
         let cur_cl: u16 = kani::any();
         let cur_leaf: u16 = kani::any();
         kani::assume(cur_cl as usize <= C && cur_leaf as usize <= L);
+        match SHAPE {
+            0 => kani::assume(cur_ep.is_none()),
+            1 => kani::assume(nep >= 1 && cur_ep == Some(ep_ids[0])),
+            2 => kani::assume(nep == 2 && cur_ep == Some(ep_ids[1])),
+            _ => kani::assume(cur_ep.is_some() && !(nep >= 1 && cur_ep == Some(ep_ids[0])) && !(nep == 2 && cur_ep == Some(ep_ids[1]))),
+        }
         let last: Option<(u16, u32, u32)> = if kani::any() { Some((kani::any(), kani::any(), kani::any())) } else { None };
 
         // position of the cursor in the current node: the endpoint it is anchored at if that still
@@ -558,39 +566,135 @@ mod c06 {
     }
 
     // TIER: thorough
-    // KIND: bounded (node of <= 2 endpoints x 2 clusters x 2 attributes, fixed ids; every path; one step from any cursor)
-    #[cfg(verif_unclosed)] // did not close in CBMC within 20 min / 12 GB on this machine
+    // KIND: bounded (node of <= 2 endpoints x 2 clusters x 2 attributes, fixed ids; every path; one step from every cursor of shape "fresh")
     #[kani::proof]
     #[kani::unwind(5)]
     #[kani::stub(crate::dm::types::cluster::Cluster::check_attr_access, check_attr_access_by_contract)]
     #[kani::stub(crate::dm::types::cluster::Cluster::check_cmd_access, check_cmd_access_by_contract)]
     #[kani::stub(crate::acl::Accessor::is_endpoint_accessible, endpoint_accessible_by_contract)]
-    fn c06_expand_step_read() {
-        step::<0>();
+    fn c06_expand_step_read_fresh() {
+        step::<0, 0>();
     }
 
     // TIER: thorough
-    // KIND: bounded (node of <= 2 endpoints x 2 clusters x 2 attributes, fixed ids; every path; one step from any cursor)
-    #[cfg(verif_unclosed)] // did not close in CBMC within 20 min / 12 GB on this machine
+    // KIND: bounded (node of <= 2 endpoints x 2 clusters x 2 attributes, fixed ids; every path; one step from every cursor of shape "anchor first")
     #[kani::proof]
     #[kani::unwind(5)]
     #[kani::stub(crate::dm::types::cluster::Cluster::check_attr_access, check_attr_access_by_contract)]
     #[kani::stub(crate::dm::types::cluster::Cluster::check_cmd_access, check_cmd_access_by_contract)]
     #[kani::stub(crate::acl::Accessor::is_endpoint_accessible, endpoint_accessible_by_contract)]
-    fn c06_expand_step_write() {
-        step::<1>();
+    fn c06_expand_step_read_anchor_first() {
+        step::<0, 1>();
     }
 
     // TIER: thorough
-    // KIND: bounded (node of <= 2 endpoints x 2 clusters x 2 commands, fixed ids; every path; one step from any cursor)
-    #[cfg(verif_unclosed)] // did not close in CBMC within 20 min / 12 GB on this machine
+    // KIND: bounded (node of <= 2 endpoints x 2 clusters x 2 attributes, fixed ids; every path; one step from every cursor of shape "anchor second")
     #[kani::proof]
     #[kani::unwind(5)]
     #[kani::stub(crate::dm::types::cluster::Cluster::check_attr_access, check_attr_access_by_contract)]
     #[kani::stub(crate::dm::types::cluster::Cluster::check_cmd_access, check_cmd_access_by_contract)]
     #[kani::stub(crate::acl::Accessor::is_endpoint_accessible, endpoint_accessible_by_contract)]
-    fn c06_expand_step_invoke() {
-        step::<2>();
+    fn c06_expand_step_read_anchor_second() {
+        step::<0, 2>();
+    }
+
+    // TIER: thorough
+    // KIND: bounded (node of <= 2 endpoints x 2 clusters x 2 attributes, fixed ids; every path; one step from every cursor of shape "anchor gone")
+    #[kani::proof]
+    #[kani::unwind(5)]
+    #[kani::stub(crate::dm::types::cluster::Cluster::check_attr_access, check_attr_access_by_contract)]
+    #[kani::stub(crate::dm::types::cluster::Cluster::check_cmd_access, check_cmd_access_by_contract)]
+    #[kani::stub(crate::acl::Accessor::is_endpoint_accessible, endpoint_accessible_by_contract)]
+    fn c06_expand_step_read_anchor_gone() {
+        step::<0, 3>();
+    }
+
+    // TIER: thorough
+    // KIND: bounded (node of <= 2 endpoints x 2 clusters x 2 attributes, fixed ids; every path; one step from every cursor of shape "fresh")
+    #[kani::proof]
+    #[kani::unwind(5)]
+    #[kani::stub(crate::dm::types::cluster::Cluster::check_attr_access, check_attr_access_by_contract)]
+    #[kani::stub(crate::dm::types::cluster::Cluster::check_cmd_access, check_cmd_access_by_contract)]
+    #[kani::stub(crate::acl::Accessor::is_endpoint_accessible, endpoint_accessible_by_contract)]
+    fn c06_expand_step_write_fresh() {
+        step::<1, 0>();
+    }
+
+    // TIER: thorough
+    // KIND: bounded (node of <= 2 endpoints x 2 clusters x 2 attributes, fixed ids; every path; one step from every cursor of shape "anchor first")
+    #[kani::proof]
+    #[kani::unwind(5)]
+    #[kani::stub(crate::dm::types::cluster::Cluster::check_attr_access, check_attr_access_by_contract)]
+    #[kani::stub(crate::dm::types::cluster::Cluster::check_cmd_access, check_cmd_access_by_contract)]
+    #[kani::stub(crate::acl::Accessor::is_endpoint_accessible, endpoint_accessible_by_contract)]
+    fn c06_expand_step_write_anchor_first() {
+        step::<1, 1>();
+    }
+
+    // TIER: thorough
+    // KIND: bounded (node of <= 2 endpoints x 2 clusters x 2 attributes, fixed ids; every path; one step from every cursor of shape "anchor second")
+    #[kani::proof]
+    #[kani::unwind(5)]
+    #[kani::stub(crate::dm::types::cluster::Cluster::check_attr_access, check_attr_access_by_contract)]
+    #[kani::stub(crate::dm::types::cluster::Cluster::check_cmd_access, check_cmd_access_by_contract)]
+    #[kani::stub(crate::acl::Accessor::is_endpoint_accessible, endpoint_accessible_by_contract)]
+    fn c06_expand_step_write_anchor_second() {
+        step::<1, 2>();
+    }
+
+    // TIER: thorough
+    // KIND: bounded (node of <= 2 endpoints x 2 clusters x 2 attributes, fixed ids; every path; one step from every cursor of shape "anchor gone")
+    #[kani::proof]
+    #[kani::unwind(5)]
+    #[kani::stub(crate::dm::types::cluster::Cluster::check_attr_access, check_attr_access_by_contract)]
+    #[kani::stub(crate::dm::types::cluster::Cluster::check_cmd_access, check_cmd_access_by_contract)]
+    #[kani::stub(crate::acl::Accessor::is_endpoint_accessible, endpoint_accessible_by_contract)]
+    fn c06_expand_step_write_anchor_gone() {
+        step::<1, 3>();
+    }
+
+    // TIER: thorough
+    // KIND: bounded (node of <= 2 endpoints x 2 clusters x 2 commands, fixed ids; every path; one step from every cursor of shape "fresh")
+    #[kani::proof]
+    #[kani::unwind(5)]
+    #[kani::stub(crate::dm::types::cluster::Cluster::check_attr_access, check_attr_access_by_contract)]
+    #[kani::stub(crate::dm::types::cluster::Cluster::check_cmd_access, check_cmd_access_by_contract)]
+    #[kani::stub(crate::acl::Accessor::is_endpoint_accessible, endpoint_accessible_by_contract)]
+    fn c06_expand_step_invoke_fresh() {
+        step::<2, 0>();
+    }
+
+    // TIER: thorough
+    // KIND: bounded (node of <= 2 endpoints x 2 clusters x 2 commands, fixed ids; every path; one step from every cursor of shape "anchor first")
+    #[kani::proof]
+    #[kani::unwind(5)]
+    #[kani::stub(crate::dm::types::cluster::Cluster::check_attr_access, check_attr_access_by_contract)]
+    #[kani::stub(crate::dm::types::cluster::Cluster::check_cmd_access, check_cmd_access_by_contract)]
+    #[kani::stub(crate::acl::Accessor::is_endpoint_accessible, endpoint_accessible_by_contract)]
+    fn c06_expand_step_invoke_anchor_first() {
+        step::<2, 1>();
+    }
+
+    // TIER: thorough
+    // KIND: bounded (node of <= 2 endpoints x 2 clusters x 2 commands, fixed ids; every path; one step from every cursor of shape "anchor second")
+    #[kani::proof]
+    #[kani::unwind(5)]
+    #[kani::stub(crate::dm::types::cluster::Cluster::check_attr_access, check_attr_access_by_contract)]
+    #[kani::stub(crate::dm::types::cluster::Cluster::check_cmd_access, check_cmd_access_by_contract)]
+    #[kani::stub(crate::acl::Accessor::is_endpoint_accessible, endpoint_accessible_by_contract)]
+    fn c06_expand_step_invoke_anchor_second() {
+        step::<2, 2>();
+    }
+
+    // TIER: thorough
+    // KIND: bounded (node of <= 2 endpoints x 2 clusters x 2 commands, fixed ids; every path; one step from every cursor of shape "anchor gone")
+    #[kani::proof]
+    #[kani::unwind(5)]
+    #[kani::stub(crate::dm::types::cluster::Cluster::check_attr_access, check_attr_access_by_contract)]
+    #[kani::stub(crate::dm::types::cluster::Cluster::check_cmd_access, check_cmd_access_by_contract)]
+    #[kani::stub(crate::acl::Accessor::is_endpoint_accessible, endpoint_accessible_by_contract)]
+    fn c06_expand_step_invoke_anchor_gone() {
+        step::<2, 3>();
     }
 
     // ------------------------------------------------------------------------------------------
